@@ -28,6 +28,10 @@ def run(tier, seed, pid='C16', pack=None):
     from contracts import C03_assembly as A3
     run_contracts(pack, [(A3.j_islands(pid), None, A3.replay_j_islands), (A3.j_islands_rebuild(pid), None, A3.replay_j_islands)])
     if own:
+        # the Newton step hands the assembled matrix and residual to the selected back end and uses what it returns
+        from contracts import fn_pflow as P
+        run_contracts(pack, [(P.nr_step(pid), None, P.replay_nr_step)])
+    if own:
         from contracts.packutil import native_guard
         from contracts import bounded_backends as BB
         name = 'C16/andes/linsolvers:Solver/bounded:power-flow,trajectory,eigenvalues-agree-across-back-ends-and-accumulation-modes'
